@@ -284,6 +284,7 @@ type world struct {
 	on      bool
 	pool    []*addr
 	byKey   map[string]*addr // "idx/uidx" -> addr
+	cold    map[*addr]bool   // addresses never paid by a coinbase
 	odd     [][]byte
 	cur     snap
 	views   map[[32]byte]view
@@ -343,6 +344,7 @@ func newWorld(name string, seed uint64, min uint64, useMap uint32) *world {
 	wallet.InitMaps(true)
 	wallet.UpdateMapSizes() // creates mapsize.gob so that LoadMapSizes finds a file
 	w.byKey = map[string]*addr{}
+	w.cold = map[*addr]bool{}
 	known = map[[32]byte]bool{}
 	w.views = map[[32]byte]view{}
 	w.blkTxs = map[[32]byte][]*btc.Tx{}
@@ -865,6 +867,9 @@ func (w *world) pickValue(avail uint64) uint64 {
 	if w.min > 0 {
 		c = append(c, w.min-1, w.min, w.min, w.min+1)
 	}
+	if w.min == 0 {
+		c = append(c, 0, 0, 0)
+	}
 	c = append(c, 0, 1, avail/7+1, avail/3+1, uint64(w.rng.Intn(5000)), w.min+uint64(w.rng.Intn(100000)))
 	v := c[w.rng.Intn(len(c))]
 	if v > avail {
@@ -931,6 +936,17 @@ func (w *world) randTxs(parent *chain.BlockTreeNode, n int) []*btc.Tx {
 	return txs
 }
 
+// pickScriptCB: a script for a coinbase output — never one of the "cold" addresses (those are paid by ordinary
+// transactions only, so all their outputs are spendable at once and their total can be driven to 0)
+func (w *world) pickScriptCB() []byte {
+	for {
+		s := w.pickScript()
+		if a := w.byScript(s); a == nil || !w.cold[a] {
+			return s
+		}
+	}
+}
+
 func (w *world) cbSplit(total uint64) []chainkit.OutSpec {
 	n := 1 + w.rng.Intn(5)
 	var outs []chainkit.OutSpec
@@ -940,9 +956,9 @@ func (w *world) cbSplit(total uint64) []chainkit.OutSpec {
 			v = w.pickValue(total)
 		}
 		total -= v
-		outs = append(outs, chainkit.OutSpec{Value: v, Script: w.pickScript()})
+		outs = append(outs, chainkit.OutSpec{Value: v, Script: w.pickScriptCB()})
 	}
-	outs = append(outs, chainkit.OutSpec{Value: total, Script: w.pickScript()})
+	outs = append(outs, chainkit.OutSpec{Value: total, Script: w.pickScriptCB()})
 	return outs
 }
 
@@ -1041,7 +1057,98 @@ func (w *world) opUndo() {
 	w.checkView()
 }
 
-var minChoices = []uint64{0, 1, 546, 1000, 100000}
+// opDrain spends, in one block, every output of one address whose value is above a threshold (0: all non-zero
+// outputs, so that zero-value ones stay behind; or everything), optionally sending a zero-value output back.
+func (w *world) opDrain() {
+	tip := w.k.Ch.LastBlock()
+	v := w.views[tip.BlockHash.Hash]
+	sp := spendable(v, tip.Height+1)
+	var cand []*addr
+	for _, a := range w.pool {
+		for _, c := range sp {
+			if bytes.Equal(c.Script, a.Script) {
+				cand = append(cand, a)
+				break
+			}
+		}
+	}
+	if len(cand) == 0 {
+		w.opExtend()
+		return
+	}
+	mode := w.rng.Intn(3) // 0: the non-zero outputs, 1: all of them, 2: all but one
+	if mode == 0 && w.min == 0 {
+		// prefer an address that holds a zero-value output next to others
+		var withZero []*addr
+		inSp := map[*vcoin]bool{}
+		for _, c := range sp {
+			inSp[c] = true
+		}
+		for _, a := range cand {
+			z, nz, locked := false, false, false
+			for _, c := range v {
+				if bytes.Equal(c.Script, a.Script) {
+					z = z || c.Value == 0
+					nz = nz || c.Value != 0
+					locked = locked || (c.Value != 0 && !inSp[c]) // an immature coinbase output
+				}
+			}
+			if z && nz && !locked {
+				withZero = append(withZero, a)
+			}
+		}
+		if len(withZero) > 0 {
+			cand = withZero
+		}
+	}
+	a := cand[w.rng.Intn(len(cand))]
+	var ins []*vcoin
+	var sum uint64
+	zeroLeft := false
+	for _, c := range sp {
+		if !bytes.Equal(c.Script, a.Script) {
+			continue
+		}
+		if mode == 0 && c.Value == 0 {
+			zeroLeft = true
+			continue
+		}
+		if mode == 2 && len(ins) == 0 && !zeroLeft {
+			zeroLeft = true // (keeps the first one)
+			continue
+		}
+		if len(ins) < 2000 {
+			ins = append(ins, c)
+			sum += c.Value
+		}
+	}
+	if len(ins) == 0 {
+		w.opExtend()
+		return
+	}
+	var outs []chainkit.OutSpec
+	if w.rng.Chance(1, 3) {
+		outs = append(outs, chainkit.OutSpec{Value: 0, Script: a.Script})
+	}
+	outs = append(outs, chainkit.OutSpec{Value: sum, Script: w.pickScript()})
+	r.Hit(fmt.Sprintf("drain:mode=%d", mode))
+	if mode == 0 && zeroLeft && w.on && w.min == 0 {
+		left := false
+		for _, c := range v {
+			if bytes.Equal(c.Script, a.Script) && c.Value != 0 && (c.CB && tip.Height+1-c.Height < chain.COINBASE_MATURITY) {
+				left = true
+			}
+		}
+		if !left && len(ins) < 2000 {
+			r.Hit("drain:total-0-with-zero-value-output-left(min=0)")
+		}
+	}
+	w.logf("drain %s mode=%d ins=%d", a.String(), mode, len(ins))
+	w.extend(tip, []*btc.Tx{mkTx(txSpec{Ins: ins, Outs: outs})}, w.cbSplit)
+	w.checkView()
+}
+
+var minChoices = []uint64{0, 0, 1, 546, 1000, 100000}
 var mapChoices = []uint32{0, 1, 2, 3, 4, 6, 9, 5000}
 
 func (w *world) opToggle() {
@@ -1085,6 +1192,9 @@ func runRandom(name string, seed uint64, nops int, stopAt int) *world {
 		j := w.rng.Intn(i + 1)
 		w.pool[i], w.pool[j] = w.pool[j], w.pool[i]
 	}
+	// two cold addresses, one of them among the three hot ones
+	w.cold[w.pool[g.Intn(3)]] = true
+	w.cold[w.pool[3+g.Intn(len(w.pool)-3)]] = true
 	startOn := g.Intn(3)
 	if startOn == 0 {
 		w.setOn(true, w.min, w.useMap) // enabled on the empty set
@@ -1104,8 +1214,10 @@ func runRandom(name string, seed uint64, nops int, stopAt int) *world {
 	for i := 0; i < nops && !w.failed; i++ {
 		x := w.rng.Intn(100)
 		switch {
-		case x < 58:
+		case x < 50:
 			w.opExtend()
+		case x < 58:
+			w.opDrain()
 		case x < 74:
 			w.opReorg()
 		case x < 84:
@@ -1186,8 +1298,8 @@ func (w *world) spend(coins []btc.TxPrevOut, outs ...chainkit.OutSpec) *btc.Tx {
 		need += ou.Value
 	}
 	all := append([]chainkit.OutSpec{}, outs...)
-	if sum > need {
-		all = append(all, chainkit.OutSpec{Value: sum - need, Script: []byte{0x51}})
+	if sum > need || len(all) == 0 {
+		all = append(all, chainkit.OutSpec{Value: sum - need, Script: []byte{0x51}}) // (a zero-value coin spent alone: 0-value change)
 	}
 	tx := mkTx(txSpec{Ins: ins, Outs: all})
 	w.logf("spend %d coins", len(coins))
@@ -1305,6 +1417,99 @@ func runCorpus(name string, seed uint64, mn uint64, um uint32, idx int, stopAt i
 	return w
 }
 
+// corpus, MinValue = 0: zero-value outputs to a standard address script next to other outputs. The record of an
+// address must live exactly as long as its OUTPUT LIST is non-empty — its total may reach 0 long before that.
+func runZero(name string, seed uint64, um uint32, idx int, stopAt int) *world {
+	w := newWorld(name, seed, 0, um)
+	w.stopAt = stopAt
+	defer w.close()
+	sz := map[bool]int{true: 32, false: 20}
+	A := w.addAddr(idx, w.rng.Bytes(sz[idx >= 3]))
+	B := w.addAddr((idx+2)%5, w.rng.Bytes(sz[(idx+2)%5 >= 3]))
+	w.quiet = true
+	for i := 0; i < 103 && !w.failed; i++ {
+		w.extend(w.k.Ch.LastBlock(), nil, nil)
+	}
+	w.quiet = false
+	w.setOn(true, 0, um)
+	const v = 7000
+	Z := func(a *addr) chainkit.OutSpec { return chainkit.OutSpec{Value: 0, Script: a.Script} }
+	V := func(a *addr, x uint64) chainkit.OutSpec { return chainkit.OutSpec{Value: x, Script: a.Script} }
+	// a zero-value output next to two non-zero ones (one transaction), a lone zero-value output on B
+	t1 := w.pay(Z(A), V(A, v), V(A, v+1), Z(B))
+	if t1 == nil {
+		return w
+	}
+	r.Hit("zero:holds-zero-next-to-nonzero")
+	// the block spends ALL non-zero outputs of A: total 0, one (zero-value) output still unspent
+	if w.spend([]btc.TxPrevOut{po(t1, 1), po(t1, 2)}) == nil {
+		return w
+	}
+	r.Hit("zero:total-0-with-output-left")
+	// a second zero-value output arrives; one of the two is spent (alone); the block is undone and connected again
+	t2 := w.pay(Z(A))
+	if t2 == nil {
+		return w
+	}
+	t3 := w.spend([]btc.TxPrevOut{po(t1, 0)})
+	if t3 == nil {
+		return w
+	}
+	w.opUndo()
+	w.extend(w.k.Ch.LastBlock(), []*btc.Tx{t3}, nil)
+	// non-zero output arrives and leaves together with nothing else: the zero-value one stays
+	t4 := w.pay(V(A, v), V(B, 1))
+	if t4 == nil {
+		return w
+	}
+	if w.spend([]btc.TxPrevOut{po(t4, 0)}) == nil {
+		return w
+	}
+	// B: the 1-value output goes, the zero-value one stays
+	if w.spend([]btc.TxPrevOut{po(t4, 1)}) == nil {
+		return w
+	}
+	// rebuilt from the populated set with min 0 (zero-value entries are back), with min 1 (they are not), with 0 again
+	w.setOn(false, 0, 0)
+	w.setOn(true, 0, um)
+	w.setOn(false, 0, 0)
+	w.setOn(true, 1, um)
+	w.setOn(false, 0, 0)
+	w.setOn(true, 0, um)
+	// many zero-value outputs in one transaction (list -> map switch-over with total 0), drained one by one
+	n := int(um) + 2
+	if n > 8 {
+		n = 8
+	}
+	var zs []chainkit.OutSpec
+	for i := 0; i < n; i++ {
+		zs = append(zs, Z(A))
+	}
+	tz := w.pay(zs...)
+	if tz == nil {
+		return w
+	}
+	for i := 0; i < n && !w.failed; i++ {
+		if w.spend([]btc.TxPrevOut{po(tz, i)}) == nil {
+			return w
+		}
+	}
+	// the last zero-value output of A goes (record must disappear) and a new zero-value one arrives in the same block
+	if w.spend([]btc.TxPrevOut{po(t2, 0)}, Z(A)) == nil {
+		return w
+	}
+	// that block is reorganised away
+	tip := w.k.Ch.LastBlock()
+	if raw, ok := w.buildOn(tip.Parent, nil, nil); ok {
+		w.submit(raw)
+		if n1 := w.k.Ch.BlockIndex[btc.NewUint256(hashOf32(raw)).BIdx()]; n1 != nil {
+			w.extend(n1, nil, nil)
+		}
+	}
+	w.checkView()
+	return w
+}
+
 // ------------------------------------------------------------------------------------ main
 
 type replayDoc struct {
@@ -1323,6 +1528,11 @@ func runNamed(name string, seed uint64, stopAt int) {
 		var idx int
 		fmt.Sscanf(name, "corpus:min=%d,usemap=%d,type=%d", &mn, &um, &idx)
 		runCorpus(name, seed, mn, um, idx, stopAt)
+	case strings.HasPrefix(name, "zero:"):
+		var um uint32
+		var idx int
+		fmt.Sscanf(name, "zero:usemap=%d,type=%d", &um, &idx)
+		runZero(name, seed, um, idx, stopAt)
 	case strings.HasPrefix(name, "random:"):
 		var nops int
 		fmt.Sscanf(name, "random:ops=%d", &nops)
@@ -1424,12 +1634,34 @@ func main() {
 			}
 		}
 	}
+	if os.Getenv("C17_ONLY") == "random" { // self-test aid: the random stream alone
+		corpus = nil
+	}
 	base := r.Violations() // a model/impl disagreement of the unit comparisons does not stop the search for a failing history
 	for i, c := range corpus {
 		if r.Violations() > base {
 			break
 		}
 		runNamed(fmt.Sprintf("corpus:min=%d,usemap=%d,type=%d", c.mn, c.um, c.idx), uint64(1000+i), -1)
+	}
+	// MinValue = 0 with zero-value outputs to standard address scripts (list mode, map mode from the first entry, switch-over)
+	zero := []cs{{0, 5000, 0}, {0, 1, 4}, {0, 3, 1}}
+	if r.Thorough() {
+		zero = nil
+		for _, um := range []uint32{0, 1, 2, 3, 5, 5000} {
+			for idx := 0; idx < 5; idx++ {
+				zero = append(zero, cs{0, um, idx})
+			}
+		}
+	}
+	if os.Getenv("C17_ONLY") == "random" {
+		zero = nil
+	}
+	for i, c := range zero {
+		if r.Violations() > base {
+			break
+		}
+		runNamed(fmt.Sprintf("zero:usemap=%d,type=%d", c.um, c.idx), uint64(2000+i), -1)
 	}
 	n := r.N(10, 120)
 	for i := 0; i < n && r.Violations() == base; i++ {
